@@ -928,7 +928,9 @@ where
 
     /// Get the total number of blobs stored
     fn len(&self) -> usize {
-        self.stats.blob_stats.blob_count
+        // Count live records directly: the statistics are only maintained
+        // when `enable_statistics` is set
+        self.record_to_blob_map.iter().filter(|&&blob_id| blob_id != usize::MAX).count()
     }
 
     /// Flush any pending operations to storage
